@@ -2,6 +2,7 @@ import JominiModel.Proofs.BinReader
 import JominiModel.Proofs.TextFault
 import JominiModel.Proofs.TextDeCut
 import JominiModel.Proofs.BinDeCut
+import JominiModel.Proofs.TextSkip
 /-
 C20 — Underlying I/O failures surface as errors, never as silently wrong results.
 
